@@ -184,6 +184,7 @@ def gen_pool(rng, tier, opts):
 # ---------------------------------------------------------------------------------------------
 class Run:
     def __init__(self, record):
+        W.reset_containers()
         self.record = record
         self.pool = from_jsonable(record["pool"])
         self.pool0 = list(self.pool)  # recipes as first created: what a replay starts from (in-place mutators update self.pool only)
@@ -771,7 +772,19 @@ class Run:
             if not 0 <= i < len(self.pool):
                 return
         # make sure the live operands exist before the snapshot
-        live_get = lambda i: self.build_entry(i, None, True)
+        def live_get(i):
+            try:
+                return self.build_entry(i, None, True)
+            except Exception as e:
+                # a constructor is an operation too: it must succeed here if it succeeds in a fresh world
+                try:
+                    with W.pristine_containers():
+                        self.build_entry(i, {}, False)
+                except Exception:
+                    raise e
+                raise Violation("O2_history_independence", f"step {idx}: pool object {i} ({self.pool[i]['kind']}) cannot be constructed at this point of the history ({type(e).__name__}: {str(e)[:120]}) but can in a fresh world",
+                                {"step": idx, "st": to_jsonable(st), "object": i}, dict(sig, how="constructor"))
+
         for key in ("on", "csys", "estimator", "tomo", "dataset", "loss", "algo", "sequence", "obj", "basis", "loss_option_id", "algo_option_id", "as_list"):
             if key in st and st[key] is not None:
                 live_get(st[key])
@@ -812,7 +825,10 @@ class Run:
         Settings.set_atol(self.atol)
         exc_ref = None
         try:
-            out_ref = self.apply(st, fresh, False)
+            with W.pristine_containers() as pc:
+                out_ref = self.apply(st, fresh, False)
+            if pc.saved:
+                self.bump("probes", "fresh_world_ran_with_pristine_module_containers")
         except Exception as e:
             exc_ref = e
             out_ref = None
@@ -1770,6 +1786,7 @@ def run_record(record, want_record=True):
 
 def run_seed(seed, tier, opts):
     """steps are generated while the history runs (the pool grows), recorded explicitly, and replayable as they are."""
+    W.reset_containers()
     rng = rng_for(seed, "histsim")
     if opts.get("directed"):
         from histsim import directed
